@@ -53,6 +53,10 @@ var wallPrograms = []string{
 	"(do (future (tick 0)) (spin 0))",
 	"(do (def tf (future (tick 0))) (sleep 100000))",
 	"(try (do (future (tick 0)) (sleep 100000)) (catch e (spin 0)))",
+	// MANY live try / finally (and rethrowing catch) frames when the context ends: each cleanup body starts with a poll and
+	// gives up at once — no per-frame grace can add up to seconds
+	"(walk 120)",
+	"(walkc 80)",
 	// a running future that is cancelled and then dereferenced several times: every deref returns (an outcome or the
 	// caller's timeout), none can park the evaluation beyond its context
 	"(let [f (future (sleep 100000))] (do (future-cancel f) (sleep 3) (try (deref f) (catch e nil)) (try (deref f) (catch e nil)) (try (deref f) (catch e nil)) (spin 0)))",
@@ -66,6 +70,8 @@ const wallDefs = `(do
  (defmacro mrec (fn [n] (list 'mrec (+ n 1))))
  (def ticks (atom 0))
  (def tick (fn [n] (do (swap! ticks inc) (tick (+ n 1)))))
+ (def walk (fn [n] (if (< n 1) (sleep 100000) (try (walk (- n 1)) (finally (sleep 40))))))
+ (def walkc (fn [n] (if (< n 1) (spin 0) (try (walkc (- n 1)) (catch e (sleep 40) (throw e)) (finally (sleep 40))))))
  (def bgf (future (sleep 100000)))
  (def bgspin (future (spin 0)))
  nil)`
@@ -119,6 +125,9 @@ var wallValuePrograms = []struct{ src, want string }{
 	// another reader (a helper future of the same evaluation) is already waiting on the future the try body derefs: the
 	// body's own budget still ends its wait, and the handler gets to run
 	{"(do (def slow (future (sleep 100000))) (future (deref slow)) (future (deref slow)) (sleep 20) (try (deref slow) (catch e :caught)))", "\u029ecaught"},
+	// the finally body of a try whose BODY was cut by its time share still runs (exactly once), after the handler
+	{"(do (def log (atom [])) (try (sleep 100000) (catch e (swap! log conj :caught)) (finally (swap! log conj :fin))) (deref log))", "=[:caught :fin]"},
+	{"(do (def log (atom [])) (try (try (spin 0) (finally (swap! log conj :fin))) (catch e (swap! log conj :outer))) (deref log))", "=[:fin :outer]"},
 }
 
 func (e *cancelWallEngine) runValue(idx, afterMs int) string {
@@ -149,11 +158,17 @@ func (e *cancelWallEngine) runValue(idx, afterMs int) string {
 	want := wallValuePrograms[idx].want
 	if want == "" {
 		want = render(Vector{Val: []MalType{"\u029erecovered", "\u029eafter"}})
+	} else if strings.HasPrefix(want, "=") {
+		w, werr := lisp.READ(want[1:], nil, env)
+		if werr != nil {
+			return "setup-error"
+		}
+		want = render(w)
 	} else {
 		want = render(want)
 	}
 	if got != want {
-		return "value=" + got + "\t!a timeout raised inside the body of an inner try was not handled by that try's handler: " + wallValuePrograms[idx].src + " ⇒ " + got + " (expected " + want + ")"
+		return "value=" + got + "\t!a timeout raised inside the body of a try was not handled as the property prescribes (that try's handler runs, its finally body runs once afterwards): " + wallValuePrograms[idx].src + " ⇒ " + got + " (expected " + want + ")"
 	}
 	return "ok"
 }
@@ -269,4 +284,21 @@ func (e *cancelWallEngine) run(payload string) string {
 func (e *cancelWallEngine) classify(payload, obs string) string {
 	f := strings.Fields(payload + " ? ? ?")
 	return f[0] + "/" + f[2] + "/" + strings.Fields(obs + " ?")[0]
+}
+
+// engine "tryfin" (C03): the try / catch / finally programs of the value list above, under a real deadline: "the finally
+// body runs exactly once after body and handler have finished on every path" — also on the path where the body was cut by
+// its share of the caller's deadline.  Same runner and oracle as cancelwall's value cases.
+type tryFinEngine struct{ cancelWallEngine }
+
+func init() { register("tryfin", &tryFinEngine{}) }
+
+func (e *tryFinEngine) generate(r *rng, n int, tier string, emit func(string)) {
+	for i, p := range wallValuePrograms {
+		if strings.Contains(p.src, "finally") {
+			for _, ms := range []int{400, 600, 900} {
+				emit(fmt.Sprintf("value prog=%d after=%dms", i, ms))
+			}
+		}
+	}
 }
